@@ -41,6 +41,8 @@ def plan(tier, seed):
         shards.append(("overlap", grid, c, nch))
     for c in range(4):
         shards.append(("overlap_tall", c, 4))
+    for c in range(4):
+        shards.append(("sched", c, 4, tier))
     if tier == "quick":
         # a slice of the 2x3 pair space as well (every 64th first frame)
         for c in range(16):
@@ -331,7 +333,42 @@ def _run_overlap_tall(desc):
     return sh
 
 
+def _run_sched(desc):
+    """mask_to_coo (behind from_data_mask) fills the coordinate arrays in two OpenMP loops: all schedules (T = 2, 3, bound 2) of the
+    instrumented kernel for every non-empty 3x3 (thorough 3x4) mask must give the row-major coordinates"""
+    _, c, nch, tier = desc
+    from vt.vrt import VRT, check_schedule_independence
+    sh = Shard()
+    V = VRT()
+    shp = (3, 3) if tier == "quick" else (3, 4)
+    n = shp[0] * shp[1]
+    for x in range(1 + c, 1 << n, nch):
+        mask = np.array([(x >> k) & 1 for k in range(n)], np.int8).reshape(shp)
+        nnz = int(mask.sum())
+        i = np.full(nnz, 999, np.uint16); j = np.full(nnz, 999, np.uint16); w = np.full(shp[0], -5, np.int32)
+        ref, res, bad = check_schedule_independence(V, "mask_to_coo", [mask, shp[0], shp[1], i, j, nnz, w], [], (), [i, j], threads=(2, 3), bound=2)
+        case = {"kind": "sched", "shape": list(shp), "mask": x}
+        ii, jj = np.nonzero(mask)
+        gi = np.frombuffer(ref[1], np.uint16); gj = np.frombuffer(ref[2], np.uint16)
+        if ref[0] != 0 or not (np.array_equal(gi, ii) and np.array_equal(gj, jj)):
+            sh.violation("mask_to_coo[vrt build]:coordinates", case, {"i": gi, "j": gj, "ret": ref[0]})
+        for T, sched in bad:
+            sh.violation("mask_to_coo:schedule-dependent:T=%d" % T, dict(case, schedule=sched), {})
+        for r in res:
+            sh.states += r["nodes"]
+            sh.transitions += r["nodes"] - 1 + r["executions"]
+            sh.count("schedule_executions", r["total_executions"])
+            sh.count("conflict_words", r["filter_size"])
+        sh.evaluations += 1
+        if nnz >= 2:
+            sh.nontrivial += 1
+    sh.sample({"kind": "sched", "kernel": "mask_to_coo", "shape": list(shp), "threads": [2, 3], "bound": 2}, limit=1)
+    return sh
+
+
 def run_shard(desc):
+    if desc[0] == "sched":
+        return _run_sched(desc)
     if desc[0] == "overlap_tall":
         return _run_overlap_tall(desc)
     return {"round": _run_round, "sort": _run_sort, "edge": _run_edge, "overlap": _run_overlap,
